@@ -232,11 +232,11 @@ def other_modules(ctx):
     N = ctx.scale(120, 3000)
     for i in range(N):
         r = gen.rng_for(ctx.seed, "C03-o", i)
-        cls = ["EllipsoidART", "GaussianART", "BayesianART", "QuadraticNeuronART", "HypersphereART"][i % 5]
+        cls = ["EllipsoidART", "GaussianART", "BayesianART", "QuadraticNeuronART", "HypersphereART", "FuzzyART", "ART1", "ART2A"][i % 8]
         d = r.randint(1, 3)
         spec = specs.elem_spec(r, cls, d)
         m = make(spec)
-        X = specs.elem_data(r, cls, 10, d, floats=r.random() < 0.5)
+        X = specs.elem_data(r, cls, 10, d, floats=r.random() < 0.5 and cls != "ART1")
         try:
             with quiet():
                 m.fit(X)
@@ -247,20 +247,38 @@ def other_modules(ctx):
         for j in range(4):
             w = np.array(m.W[r.randrange(len(m.W))], dtype=float)
             x = X[r.randrange(len(X))].copy() if r.random() < 0.7 else specs.elem_data(r, cls, 1, d)[0]
+            if cls == "ART2A" and r.random() < 0.4:
+                # exact tie between the activation and the uncommitted-node activation alpha*sum(x):
+                # alpha = 0 with a template orthogonal to the sample
+                w = np.zeros_like(w)
+                w[r.randrange(len(w))] = 1.0
+                x = np.array([0.0 if t == 1.0 else 0.5 for t in w])
+                if not x.any():
+                    x = None
+                else:
+                    p = dict(p, alpha=0.0)
+            if x is None:
+                continue
             x0, w0 = x.copy(), w.copy()
-            rep = {"class": cls, "spec": spec, "x": x, "w": w}
+            rep = {"class": cls, "spec": spec, "x": x, "w": w, "params": {k: v for k, v in p.items() if not hasattr(v, "shape")}}
             try:
                 with quiet():
                     T, cache = m.category_choice(x, w, params=p)
                     M, cache2 = m.match_criterion(x, w, params=p, cache=cache)
                     wu = np.asarray(m.update(x, w, p, cache=cache2), dtype=float)
+            except ZeroDivisionError:
+                # (x, w) pair on which the published rule itself divides by zero (e.g. ART1 with L = 1 and a
+                # template disjoint from x): outside the kernels' domain, unreachable by training (C04)
+                cov.hit(f"zerodiv-outside-domain:{cls}")
+                continue
             except Exception as e:
                 ctx.issue("violation", f"{cls}.kernel:{exc_enum(e)}", f"kernel call raised {e!r}", rep)
                 continue
             if not (np.array_equal(x, x0) and np.array_equal(w, w0)):
                 ctx.issue("violation", f"{cls}.kernel:mutates-arguments", "x or w changed by a kernel call", rep)
             try:
-                Tr, Mr, wr = reference(cls, p, d, x, w, [w_[-1] for w_ in m.W])
+                with np.errstate(all="ignore"):
+                    Tr, Mr, wr = reference(cls, p, d, x, w, [w_[-1] for w_ in m.W])
             except Exception as e:
                 cov.hit(f"reference-raised:{cls}:{exc_enum(e)}")
                 continue
@@ -274,6 +292,18 @@ def other_modules(ctx):
 
 
 def reference(cls, p, d, x, w, counts):
+    if cls == "FuzzyART":
+        mn = np.minimum(x, w)
+        return mn.sum() / (p["alpha"] + w.sum()), mn.sum() / (len(x) // 2), p["beta"] * mn + (1 - p["beta"]) * w
+    if cls == "ART1":
+        bu, td = w[:d], w[d:]
+        t2 = np.logical_and(x, td).astype(float)
+        return float(x @ bu), t2.sum() / x.sum(), np.concatenate([p["L"] / (p["L"] - 1 + t2.sum()) * t2, t2])
+    if cls == "ART2A":
+        T = float(x @ w)
+        # a committed node is suppressed only when the uncommitted-node activation alpha*sum(x) is strictly higher
+        M = -1.0 if T < p["alpha"] * x.sum() else T
+        return T, M, p["beta"] * x + (1 - p["beta"]) * w
     if cls == "HypersphereART":
         c, R = w[:-1], w[-1]
         dist = np.sqrt((x - c) @ (x - c))
